@@ -121,11 +121,16 @@ class EthAddr (_AddrBase):
         else:
           # Assume it's hex digits but they may not all be in two-digit
           # groupings (e.g., xx:x:x:xx:x:x). This actually comes up.
-          parts = [int(x,16) for x in addr.split(b":")]
-          if any(x < 0 or x > 0xff for x in parts):
+          parts = addr.split(b":")
+          if any(len(x) not in (1,2) for x in parts):
             raise RuntimeError("Bad format for ethernet address")
-          addr = b''.join([b"%02x" % (x,) for x in parts])
+          addr = b''.join([x.rjust(2, b"0") for x in parts])
         # We should now have 12 hex digits (xxxxxxxxxxxx).
+        # (int(x,16) would also take signs, "0x", "_" and surrounding
+        # whitespace, none of which belongs in an address.)
+        if len(addr) != 12 or any(c not in b"0123456789abcdefABCDEF"
+                                  for c in addr):
+          raise RuntimeError("Bad format for ethernet address")
         # Convert to 6 raw bytes.
         addr = bytes(int(addr[x*2:x*2+2], 16) for x in range(0,6))
       else:
